@@ -106,10 +106,9 @@ def algorithmic(lines):
     return out
 
 
-def run(prog, rep, tier, repo):
-    pdb = prog.pdb
-    # ------------------------------------------------------------------ D1
-    for k in (D + 'cholesky::try_cholesky', M + '::cholesky'):
+def pivot_guard(prog, rep, keys):
+    """every pivot square root of a Cholesky routine is dominated by the test `pivot > 0` being true (a NaN or zero pivot fails it)"""
+    for k in keys:
         f = prog.func(k)
         key = 'pivot-guard:%s' % k
         if f is None:
@@ -136,6 +135,12 @@ def run(prog, rep, tier, repo):
                      '(e.g. [[1,2],[2,1]]) yields NaN entries in the factor instead of being rejected' % show(bad[0].args[0])[:120], site_of(bad[0].span))
         else:
             rep.ok('pivot-guard', key, 'every pivot square root is dominated by `pivot > 0`')
+
+
+def run(prog, rep, tier, repo):
+    pdb = prog.pdb
+    # ------------------------------------------------------------------ D1
+    pivot_guard(prog, rep, (D + 'cholesky::try_cholesky', M + '::cholesky'))
     # public `cholesky` must reject (panic) when the factorisation fails
     f = prog.func(D + 'cholesky::cholesky')
     key = 'pivot-guard:%scholesky::cholesky:rejects' % D
